@@ -227,10 +227,10 @@ def WF.base (inp : Input) : Bool :=
   R.all (fun i =>
     let ms := i.methods.map (·.name)
     i.methods.all (fun m => Str.isAscii m.name && (m.pnames ++ m.rnames).all Str.isAscii) &&
-    ms.all (fun m =>
-      !(m ++ s%"Calls" ∈ ms) && !(s%"Reset" ++ m ++ s%"Calls" ∈ ms) && !(m ++ s%"Func" ∈ ms) &&
-      !(s%"lock" ++ m ∈ ms)) &&
-    !(s%"ResetCalls" ∈ ms) && !(s%"calls" ∈ ms)) &&
+    -- every member the mock struct ends up with (methods, function fields, accessors, resets,
+    -- locks, `calls`) is declared once: F-16 is the recorded finding for this class
+    nodupB (ms ++ ms.map (· ++ s%"Calls") ++ ms.map (s%"Reset" ++ · ++ s%"Calls") ++ ms.map (· ++ s%"Func") ++
+            ms.map (s%"lock" ++ ·) ++ [s%"ResetCalls", s%"calls"])) &&
   -- generated into another package: everything mentioned must be exported
   (inPlace || R.all fun i =>
     isExportedName i.name &&
